@@ -112,7 +112,9 @@ impl JsInterpreter {
     pub fn continue_evaluating(&mut self) {
         assert!(self.latest_error.is_none());
         if let Err(err) = self.interpreter.continue_evaluating() {
-            self.latest_error = Some(err.to_string());
+            let mut lines = vec![err.to_string()];
+            lines.extend(err.get_line_with_pointer_caret::<String>(&self.interpreter, None));
+            self.latest_error = Some(lines.join("\n"));
         } else {
             self.maybe_replace_interpreter();
         }
